@@ -23,11 +23,15 @@ func VerifC20Option(idx, n int) {
 	e0 := o.ToBytes()
 	verifObserve("encoding", e0)
 	nr := verifOptionReaders(o)
-	for round := 0; round < 2; round++ {
-		for k := 0; k < nr; k++ {
-			verifOptionReader(o, k)
-			verifAssert(verifSame(o.ToBytes(), e0), "reader-leaves-encoding-unchanged")
-		}
+	dg := make([][]byte, nr)
+	for k := 0; k < nr; k++ {
+		dg[k] = verifOptionReader(o, k)
+		verifAssert(verifSame(o.ToBytes(), e0), "reader-leaves-encoding-unchanged")
+	}
+	// again in the opposite order: same results, same encoding
+	for k := nr - 1; k >= 0; k-- {
+		verifAssert(verifSame(verifOptionReader(o, k), dg[k]), "repeated-calls-return-equal-results")
+		verifAssert(verifSame(o.ToBytes(), e0), "reader-leaves-encoding-unchanged")
 	}
 	verifReach("end")
 }
@@ -84,23 +88,40 @@ func VerifC20Message(idx, n, relay int) {
 	e0 := d.ToBytes()
 	switch m := d.(type) {
 	case *Message:
-		for k := range verifMessageReaderNames {
-			verifMessageReader(m, k)
+		n1, n2 := len(verifMessageReaderNames), len(verifMessageOptionsReaderNames)
+		d1, d2 := make([][]byte, n1), make([][]byte, n2)
+		for k := 0; k < n1; k++ {
+			d1[k] = verifMessageReader(m, k)
 			verifAssert(verifSame(d.ToBytes(), e0), "message-reader-leaves-encoding-unchanged")
 		}
-		for k := range verifMessageOptionsReaderNames {
-			verifMessageOptionsReader(m.Options, k)
+		for k := 0; k < n2; k++ {
+			d2[k] = verifMessageOptionsReader(m.Options, k)
 			verifAssert(verifSame(d.ToBytes(), e0), "options-reader-leaves-encoding-unchanged")
 		}
+		for k := n2 - 1; k >= 0; k-- {
+			verifAssert(verifSame(verifMessageOptionsReader(m.Options, k), d2[k]), "repeated-calls-return-equal-results")
+		}
+		for k := n1 - 1; k >= 0; k-- {
+			verifAssert(verifSame(verifMessageReader(m, k), d1[k]), "repeated-calls-return-equal-results")
+		}
 	case *RelayMessage:
-		for k := range verifRelayMessageReaderNames {
-			verifRelayMessageReader(m, k)
+		n1, n2 := len(verifRelayMessageReaderNames), len(verifRelayOptionsReaderNames)
+		d1, d2 := make([][]byte, n1), make([][]byte, n2)
+		for k := 0; k < n1; k++ {
+			d1[k] = verifRelayMessageReader(m, k)
 			verifAssert(verifSame(d.ToBytes(), e0), "relay-reader-leaves-encoding-unchanged")
 		}
-		for k := range verifRelayOptionsReaderNames {
-			verifRelayOptionsReader(m.Options, k)
+		for k := 0; k < n2; k++ {
+			d2[k] = verifRelayOptionsReader(m.Options, k)
 			verifAssert(verifSame(d.ToBytes(), e0), "relay-options-reader-leaves-encoding-unchanged")
 		}
+		for k := n2 - 1; k >= 0; k-- {
+			verifAssert(verifSame(verifRelayOptionsReader(m.Options, k), d2[k]), "repeated-calls-return-equal-results")
+		}
+		for k := n1 - 1; k >= 0; k-- {
+			verifAssert(verifSame(verifRelayMessageReader(m, k), d1[k]), "repeated-calls-return-equal-results")
+		}
 	}
+	verifAssert(verifSame(d.ToBytes(), e0), "readers-leave-encoding-unchanged")
 	verifReach("end")
 }
